@@ -389,6 +389,28 @@ func immutableHistory(run *evid.Run, h int, wrapper bool) {
 func deleteVersusTagPush(run *evid.Run, iters int) {
 	reg := newImmutableTags()
 	ctx := context.Background()
+	// bystanders keep the registry busy with reads of another repository throughout: with waiters queued
+	// on its lock, whoever lets go of the lock and comes back for it goes to the end of the queue, which
+	// is what opens a window between two critical sections wide enough for somebody else
+	stop := make(chan struct{})
+	var bystanders sync.WaitGroup
+	other := []byte("a bystander's blob")
+	reg.PushBlob(ctx, "dv/bystander", ociregistry.Descriptor{MediaType: "application/octet-stream", Digest: ociregistry.Digest(model.Digest(other)), Size: int64(len(other))}, bytes.NewReader(other))
+	for g := 0; g < 3; g++ {
+		bystanders.Add(1)
+		go func() {
+			defer bystanders.Done()
+			for {
+				select {
+				case <-stop:
+					return
+				default:
+				}
+				reg.ResolveBlob(ctx, "dv/bystander", ociregistry.Digest(model.Digest(other)))
+			}
+		}()
+	}
+	defer func() { close(stop); bystanders.Wait() }()
 	for it := 0; it < iters; it++ {
 		repo := fmt.Sprintf("dv/r%d", it)
 		layer := []byte(fmt.Sprintf("layer %d", it))
